@@ -9,7 +9,8 @@
       tip-name table.
     Also: the name look-ups as functions of the table (theorems, inside the proviso). *)
 From Coq Require Import String ZArith QArith Bool Arith List Permutation.
-From GT Require Import Base.UTree Spec.Obs Model.Reroot Model.Prune Proofs.Prune Proofs.PruneLookup Judge.C06.
+From GT Require Import Base.UTree Spec.Obs Spec.Induced Spec.Unrooted Model.Reroot Model.Prune Proofs.PruneBase Proofs.Prune Proofs.PruneSplits
+     Proofs.PruneLookup Proofs.PruneGen Proofs.PruneGenRoot Judge.C06.
 Import ListNotations.
 Local Close Scope Q_scope.
 Local Open Scope string_scope.
@@ -85,3 +86,38 @@ Example C06_single_root_becomes_tip :
              leaves t' = ["b"; "c"] /\ tip_index_after (tip_names s5) t' = ["x"; "b"; "c"].
 Proof. eexists. vm_compute. repeat split; reflexivity. Qed.
 Print Assumptions C06_single_root_becomes_tip.
+
+(** * theorems without the proviso *)
+(** RemoveTips on ANY well-formed tree with distinct tip names (single-child inner nodes allowed),
+    when it succeeds and at least one tip remains: exact tip set, unchanged path lengths, and no
+    single-child node is created ([SCroot]: the leaf sets below the single-child nodes; [msub]:
+    multiset inclusion; [fcl k]: every leaf set restricted to the kept tips, empty ones dropped) *)
+Theorem C06_single_general :
+  forall revert names t t',
+  wf t = true -> 2 <= degree t -> NoDup (leaves t) ->
+  filter (kept revert names) (leaves t) <> [] ->
+  remove_tips revert names t = Ok t' ->
+  wf t' = true /\
+  Permutation (leaves t') (filter (kept revert names) (leaves t)) /\
+  dists_equiv (pairdists len0 t') (fP (kept revert names) (pairdists len0 t)) /\
+  msub (SCroot t') (fcl (kept revert names) (SCroot t)).
+Proof. exact remove_tips_okg. Qed.
+Print Assumptions C06_single_general.
+
+(** the clauses Judge/C06.v checks on inputs with single-child nodes hold for the model's output *)
+Theorem C06_oracle_accepts_model_single :
+  forall revert names t t',
+  wf t = true -> 2 <= degree t -> NoDup (leaves t) ->
+  filter (kept revert names) (leaves t) <> [] ->
+  remove_tips revert names t = Ok t' ->
+  let R := ssort (filter (kept revert names) (leaves t)) in
+  wf t' = true /\ induced_tips t' R = true /\ singles_not_created t t' R = true /\ induced_dists t t' R = true.
+Proof. exact remove_tips_oracle_single. Qed.
+Print Assumptions C06_oracle_accepts_model_single.
+
+(** non-vacuity: (((a,b)y)x,c,d) - a keeps the single-child node x (allowed: it was there), creates none *)
+Example C06_single_oracle_example :
+  exists t', remove_tips false ["a"] s3 = Ok t' /\
+             singles_not_created s3 t' ["b"; "c"; "d"] = true /\ no_single t' = false.
+Proof. eexists. vm_compute. repeat split; reflexivity. Qed.
+Print Assumptions C06_single_oracle_example.
